@@ -619,6 +619,77 @@ theorem C19_collector_is_sum (N : Nat) (ts : Nat → List Ev) (tr : List Ev) (h 
   · rw [collectorOn_eq]; simpa using counter_is_sum (succOn e) rfl (succOn_append e) N ts tr h
   · rw [collectorOn_eq]; simpa using counter_is_sum (failOn e) rfl (failOn_append e) N ts tr h
 
+/-! ### Scopes agree: the global scope is the sum of the per-endpoint scopes -/
+
+private theorem sumTo_indicator (e0 n : Nat) (h : e0 < n) : sumTo (fun e => if e0 = e then 1 else 0) n = 1 := by
+  induction n with
+  | zero => omega
+  | succ n ih =>
+    simp only [sumTo]
+    by_cases hn : e0 = n
+    · subst hn
+      have : sumTo (fun e => if e0 = e then 1 else 0) e0 = sumTo (fun _ => 0) e0 :=
+        sumTo_congr _ _ _ (fun j hj => by simp [Nat.ne_of_gt hj])
+      rw [this, sumTo_zero]; simp
+    · have := ih (by omega)
+      simp [this, hn]
+
+/-- Every recorded outcome of `tr` is on an endpoint below `n`. -/
+def RecordedBelow (n : Nat) (tr : List Ev) : Prop :=
+  ∀ ev ∈ tr, (∀ e, ev = .recSuccess e → e < n) ∧ (∀ e, ev = .recFailure e → e < n)
+
+private theorem countSucc_sum (n : Nat) (tr : List Ev) (h : RecordedBelow n tr) :
+    countSucc tr = sumTo (fun e => succOn e tr) n := by
+  induction tr with
+  | nil => simp [countSucc, succOn, sumTo_zero]
+  | cons x xs ih =>
+    have hxs : RecordedBelow n xs := fun ev hev => h ev (List.mem_cons_of_mem _ hev)
+    have ih := ih hxs
+    cases x with
+    | recSuccess e0 =>
+      have he0 : e0 < n := (h (.recSuccess e0) (by simp)).1 e0 rfl
+      simp only [countSucc, succOn]
+      rw [sumTo_add, sumTo_indicator e0 n he0, ih]
+    | _ => simpa [countSucc, succOn] using ih
+
+private theorem countFail_sum (n : Nat) (tr : List Ev) (h : RecordedBelow n tr) :
+    countFail tr = sumTo (fun e => failOn e tr) n := by
+  induction tr with
+  | nil => simp [countFail, failOn, sumTo_zero]
+  | cons x xs ih =>
+    have hxs : RecordedBelow n xs := fun ev hev => h ev (List.mem_cons_of_mem _ hev)
+    have ih := ih hxs
+    cases x with
+    | recFailure e0 =>
+      have he0 : e0 < n := (h (.recFailure e0) (by simp)).2 e0 rfl
+      simp only [countFail, failOn]
+      rw [sumTo_add, sumTo_indicator e0 n he0, ih]
+    | _ => simpa [countFail, failOn] using ih
+
+/-- **The global scope is the sum of the per-endpoint scopes**: the collector records an outcome at the global scope
+    and at the scope of the attempt's endpoint in one call, so after ANY sequence of events on endpoints `0 … n-1` —
+    hence over any stretch of a long-lived collector's life — what the global scope counts (total, successes, failures)
+    is what the `n` endpoint scopes count together.  (The driver demands this of every step of a history.) -/
+theorem C19_global_is_sum_of_endpoints (n : Nat) (tr : List Ev) (h : RecordedBelow n tr) :
+    (collector tr {}).total = sumTo (fun e => (collectorOn e tr {}).total) n ∧
+    (collector tr {}).ok = sumTo (fun e => (collectorOn e tr {}).ok) n ∧
+    (collector tr {}).failed = sumTo (fun e => (collectorOn e tr {}).failed) n := by
+  have hs := countSucc_sum n tr h
+  have hf := countFail_sum n tr h
+  refine ⟨?_, ?_, ?_⟩
+  · rw [collector_eq]
+    have : sumTo (fun e => (collectorOn e tr {}).total) n = sumTo (fun e => succOn e tr + failOn e tr) n :=
+      sumTo_congr _ _ _ (fun e _ => by rw [collectorOn_eq]; simp)
+    rw [this, sumTo_add, ← hs, ← hf]; simp
+  · rw [collector_eq]
+    have : sumTo (fun e => (collectorOn e tr {}).ok) n = sumTo (fun e => succOn e tr) n :=
+      sumTo_congr _ _ _ (fun e _ => by rw [collectorOn_eq]; simp)
+    rw [this, ← hs]; simp
+  · rw [collector_eq]
+    have : sumTo (fun e => (collectorOn e tr {}).failed) n = sumTo (fun e => failOn e tr) n :=
+      sumTo_congr _ _ _ (fun e _ => by rw [collectorOn_eq]; simp)
+    rw [this, ← hf]; simp
+
 /-! ### Recorded successes = served requests -/
 
 /-- `N` complete runs (trace and result). -/
